@@ -17,10 +17,10 @@ LEVEL = "exploration"
 BUDGET = {"quick": 250000, "thorough": 5000000}
 RULE = (
     "each run draws a manager kind (generator-based via contextmanager / class-based ContextDecorator), whether "
-    "it suppresses, the decorated coroutine function (plain or a method called through its instance, called with keyword "
+    "it suppresses, the layout (one manager object on two functions / two manager objects stacked on each function in either order / one function decorated separately by two manager objects), whether the first manager object is also entered directly once by a further task, the decorated coroutine function (plain or a method called through its instance, called with keyword "
     "arguments named like the machinery's own parameters, raising an exception object that may test false), 1..3 caller tasks with 1..3 sequential calls each (body returns or raises), suspension counts "
     "for enter/body/exit, optionally one task cancelled at its c-th suspension; calls of different tasks overlap "
-    "as the scheduler decides. Oracle per call: events are exactly enter -> body -> exit on one context, exit "
+    "as the scheduler decides. Oracle per call: events are exactly enter -> body -> exit on one context of each manager the call's function was decorated with (outermost first in, last out; an inner suppression shows the outer exit no exception), exit "
     "receives the body's exception object (or None), the caller gets the body's result / exception (None if "
     "suppressed), and for generator-based managers every call has a generator of its own. Non-trivial: >=2 calls "
     "overlapped in time or >=2 sequential calls in one task; distinct = distinct (scenario, interleaving)."
@@ -31,7 +31,7 @@ ASSUMPTIONS = [
 ]
 PROBES = ("concurrent_overlap", "sequential_reuse", "body_raises", "suppressed", "cancel_in_body", "cancel_in_enter",
           "cancel_in_exit", "class_based", "generator_based", "decorated_method", "clashing_keyword_names", "falsy_exception",
-          "ambient_exception", "enter_failed")
+          "ambient_exception", "enter_failed", "stacked_managers", "one_function_two_managers", "manager_entered_directly")
 
 
 def gen(ch):
@@ -60,6 +60,13 @@ def gen(ch):
     sc.ambient = ch.chance(1, 4)
     # entering the context fails for the n-th context created (None: never)
     sc.enter_fails = ch.draw(4) if ch.chance(1, 6) else None
+    # 0: one manager object decorates two functions | 1: two manager objects stacked on each function (in either order)
+    # 2: the one function decorated separately by two manager objects
+    sc.layout = ch.weighted([3, 1, 1])
+    if sc.layout == 1:
+        sc.enter_fails = None
+    # the decorating manager object is itself entered once, directly, by a further task after that many pauses
+    sc.direct = ch.draw(4) if ch.chance(1, 5) else None
     return sc
 
 
@@ -107,40 +114,43 @@ def execute(st, ctx):
             counter[0] += 1
             k = counter[0]
             received.append((label, rest, mode, tuple(sorted(opts.items()))))
-            log.append(("enter", k, sim.current.id))
+            log.append(("enter", k, sim.current.id, None, None, label))
             await pause(sc.susp[0], "enter")
             if sc.enter_fails is not None and k == sc.enter_fails + 1:
                 raise EnterFailed("enter%d" % k)
-            log.append(("entered", k, sim.current.id))
+            log.append(("entered", k, sim.current.id, None, None, label))
             try:
                 yield k
             except BaseException as err:
-                log.append(("exit", k, sim.current.id, tag(err), id(err)))
+                log.append(("exit", k, sim.current.id, tag(err), id(err), label))
                 if not isinstance(err, CANCEL):
                     await pause(sc.susp[2], "exit")
                 if sc.suppress and isinstance(err, Exception):
                     return
                 raise
             else:
-                log.append(("exit", k, sim.current.id, None, None))
+                log.append(("exit", k, sim.current.id, None, None, label))
                 await pause(sc.susp[2], "exit")
 
-        decorator = manager("ctx", 1, 2, mode="y", retries=3, func=4)
-        expect_args = ("ctx", (1, 2), "y", (("func", 4), ("retries", 3)))
+        decorators = [manager("m0", 1, 2, mode="y", retries=3, func=4), manager("m1", 1, 2, mode="y", retries=3, func=4)]
+        expect_args = ((1, 2), "y", (("func", 4), ("retries", 3)))
     else:
         class Manager(L.ContextDecorator):
+            def __init__(self, label):
+                self.label = label
+
             async def __aenter__(self):
                 counter[0] += 1
                 k = counter[0]
-                log.append(("enter", k, sim.current.id))
+                log.append(("enter", k, sim.current.id, None, None, self.label))
                 await pause(sc.susp[0], "enter")
                 if sc.enter_fails is not None and k == sc.enter_fails + 1:
                     raise EnterFailed("enter%d" % k)
-                log.append(("entered", k, sim.current.id))
+                log.append(("entered", k, sim.current.id, None, None, self.label))
                 return k
 
             async def __aexit__(self, et, ev, tb):
-                log.append(("exit", None, sim.current.id, tag(ev), id(ev) if ev is not None else None))
+                log.append(("exit", None, sim.current.id, tag(ev), id(ev) if ev is not None else None, self.label))
                 if not isinstance(ev, CANCEL):
                     await pause(sc.susp[2], "exit")
                 return bool(sc.suppress and isinstance(ev, Exception))
@@ -148,7 +158,7 @@ def execute(st, ctx):
         if sc.kind == 2:
             # an exit-only context: entering is what the base class provides (it gives the manager itself)
             del Manager.__aenter__
-        decorator = Manager()
+        decorators = [Manager("m0"), Manager("m1")]
 
     raised = {}
     problems = []
@@ -172,32 +182,52 @@ def execute(st, ctx):
             raise err
         return ("result", call_id)
 
-    if sc.as_method:
-        class Service:
-            @decorator
-            async def body(self, call_id, fails, /, **extra):
-                if self is not service:
-                    problems.append(("self", call_id, repr(self)))
-                return await body_impl(call_id, fails, extra)
+    d0, d1 = decorators
+    if sc.layout == 0:
+        wrap_a = wrap_b = d0
+        chains = (["m0"], ["m0"])
+    elif sc.layout == 1:
+        def wrap_a(fn):
+            return d0(d1(fn))
 
-            @decorator
-            async def body2(self, call_id, fails, /, **extra):
-                if self is not service:
-                    problems.append(("self", call_id, repr(self)))
-                return await body_impl(call_id, fails, extra)
+        def wrap_b(fn):
+            return d1(d0(fn))
+
+        chains = (["m0", "m1"], ["m1", "m0"])
+    else:
+        wrap_a, wrap_b = d0, d1
+        chains = (["m0"], ["m1"])
+
+    if sc.as_method:
+        async def raw_a(self, call_id, fails, /, **extra):
+            if self is not service:
+                problems.append(("self", call_id, repr(self)))
+            return await body_impl(call_id, fails, extra)
+
+        async def raw_b(self, call_id, fails, /, **extra):
+            if self is not service:
+                problems.append(("self", call_id, repr(self)))
+            return await body_impl(call_id, fails, extra)
+
+        if sc.layout == 2:
+            raw_b = raw_a
+
+        class Service:
+            body = wrap_a(raw_a)
+            body2 = wrap_b(raw_b)
 
         service = Service()
         bodies = (service.body, service.body2)
     else:
-        @decorator
         async def body(call_id, fails, /, **extra):
             return await body_impl(call_id, fails, extra)
 
-        @decorator
         async def body_b(call_id, fails, /, **extra):
             return await body_impl(call_id, fails, extra)
 
-        bodies = (body, body_b)
+        if sc.layout == 2:
+            body_b = body
+        bodies = (wrap_a(body), wrap_b(body_b))
 
     results = {}
 
@@ -226,8 +256,22 @@ def execute(st, ctx):
         except LookupError:
             await caller(ti, plan)
 
+    direct_log = []
+
+    async def direct_user():
+        await pause(sc.direct, "direct")
+        try:
+            async with d0:
+                direct_log.append("inside")
+                await pause(1, "direct")
+        except EnterFailed:
+            direct_log.append("enter_failed")
+        direct_log.append("done")
+
     spawn = caller_in_handler if sc.ambient else caller
     tasks = [sim.spawn(spawn(i, plan), "caller%d" % i) for i, plan in enumerate(sc.calls)]
+    if sc.direct is not None:
+        tasks.append(sim.spawn(direct_user(), "direct"))
     if sc.cancel is not None:
         sim.cancel_plan[tasks[sc.cancel].id] = 1 + st.faults.draw(8)
     run_sim(sim)
@@ -238,7 +282,9 @@ def execute(st, ctx):
                 "keyword_arguments": sc.extra, "body_exception_tests_false": sc.falsy_exc,
                 "body_raises": ("injected fault", "StopAsyncIteration", "Exception", "BaseException subclass")[sc.exc_kind],
                 "which_of_two_decorated_functions": sc.which, "inside_handler_of_unrelated_exception": sc.ambient,
-                "entering_fails_for_context": sc.enter_fails, "suspensions": sc.susp, "calls": sc.calls,
+                "entering_fails_for_context": sc.enter_fails,
+                "layout": ("one manager on two functions", "two managers stacked, in either order", "one function decorated separately by two managers")[sc.layout],
+                "manager_also_entered_directly_after_pauses": sc.direct, "suspensions": sc.susp, "calls": sc.calls,
                 "cancel": {"task": sc.cancel, "fired_at": sim.cancel_fired_at} if sc.cancel is not None else None,
                 "log": [repr(e[:4]) for e in log], "results": {repr(k): repr(v) for k, v in results.items()},
                 "interleaving": [(t >> 2, ("pause", "sleep", "lock_wait", "done")[t & 3]) for t in sim.trace][:120]}
@@ -253,7 +299,9 @@ def execute(st, ctx):
                 out.violate("C15.task_failed", sig + (type(t.error).__name__,), dict(describe(), error=repr(t.error)))
         for prob in problems[:1]:
             out.violate("C15.body_got_other_" + prob[0], sig, dict(describe(), call=prob[1], got=prob[2]))
-        if sc.kind == 0 and any(r != expect_args for r in received):
+        if sc.direct is not None and direct_log not in (["inside", "done"], ["enter_failed", "done"]):
+            out.violate("C15.direct_use_of_the_manager_disturbed", sig, dict(describe(), direct=direct_log))
+        if sc.kind == 0 and any(r[1:] != expect_args or r[0] not in ("m0", "m1") for r in received):
             out.violate("C15.recreated_manager_got_other_arguments", sig,
                         dict(describe(), received=[repr(r) for r in received], expected=repr(expect_args)))
         used = {}
@@ -270,53 +318,58 @@ def execute(st, ctx):
                     per_call[cur].append(e)
             for call_id, evs in per_call.items():
                 res = results.get(call_id)
+                chain = chains[sc.which[call_id[0]][call_id[1]]]
                 kinds = [e[0] for e in evs if e[0] in ("enter", "body", "exit")]
+                steps = [(e[0], e[5] if e[0] != "body" else None) for e in evs if e[0] in ("enter", "body", "exit")]
                 cancelled = res is not None and res[0] == "cancelled"
                 if res is None:
                     out.violate("C15.call_never_finished", sig, dict(describe(), call=call_id))
                     continue
-                entered = any(e[0] == "entered" for e in evs) or (sc.kind == 2 and "body" in kinds)
+                n_entered = sum(1 for e in evs if e[0] == "entered") if sc.kind != 2 else (len(chain) if "body" in kinds else 0)
                 if cancelled:
                     # whatever was entered must have been exited, with the cancellation - and nothing else
-                    if entered and kinds.count("exit") != 1:
+                    if n_entered and kinds.count("exit") != n_entered:
                         out.violate("C15.cancelled_call_not_exited", sig, dict(describe(), call=call_id))
-                    elif not entered and sc.kind != 2 and "exit" in kinds:
+                    elif not n_entered and sc.kind != 2 and "exit" in kinds:
                         out.violate("C15.exited_without_having_entered", sig + ("cancelled",), dict(describe(), call=call_id))
+                    elif sc.kind != 2 and [l for k, l in steps if k == "enter"] != chain[:kinds.count("enter")]:
+                        out.violate("C15.entered_other_context", sig + ("cancelled",), dict(describe(), call=call_id))
                     continue
                 if res[0] == "enter_failed":
                     # entering failed: no body, no exit, the caller gets that failure
-                    if kinds != ["enter"]:
+                    if steps != [("enter", chain[0])]:
                         out.violate("C15.exited_without_having_entered", sig + (",".join(kinds),), dict(describe(), call=call_id))
                     continue
-                if sc.kind == 2:
-                    if kinds != ["body", "exit"]:
-                        out.violate("C15.not_enter_body_exit", sig + (",".join(kinds),), dict(describe(), call=call_id))
-                        continue
-                    kinds = ["enter"] + kinds
-                    evs = [("enter", None, None)] + list(evs)
-                if kinds != ["enter", "body", "exit"]:
-                    out.violate("C15.not_enter_body_exit", sig + (",".join(kinds),), dict(describe(), call=call_id))
+                expected = [("enter", l) for l in chain] if sc.kind != 2 else []
+                expected += [("body", None)] + [("exit", l) for l in reversed(chain)]
+                if steps != expected:
+                    clause = "C15.not_enter_body_exit" if kinds != [k for k, _ in expected] else "C15.entered_other_context"
+                    out.violate(clause, sig + (",".join(kinds),), dict(describe(), call=call_id, expected=repr(expected), got=repr(steps)))
                     continue
-                enter = [e for e in evs if e[0] == "enter"][0]
-                exit_ = [e for e in evs if e[0] == "exit"][0]
+                enters = [e for e in evs if e[0] == "enter"]
+                exits = [e for e in evs if e[0] == "exit"]  # innermost first
                 if sc.kind == 0:
-                    if exit_[1] != enter[1]:
-                        out.violate("C15.exit_on_other_context", sig, dict(describe(), call=call_id))
-                    if enter[1] in used:
-                        out.violate("C15.generator_shared_between_calls", sig, dict(describe(), call=call_id))
-                    used[enter[1]] = call_id
+                    for enter, exit_ in zip(enters, reversed(exits)):
+                        if exit_[1] != enter[1]:
+                            out.violate("C15.exit_on_other_context", sig, dict(describe(), call=call_id))
+                        if enter[1] in used:
+                            out.violate("C15.generator_shared_between_calls", sig, dict(describe(), call=call_id))
+                        used[enter[1]] = call_id
                 fails = sc.calls[call_id[0]][call_id[1]]
                 if fails:
                     err = raised.get(call_id)
-                    if exit_[4] != id(err):
-                        out.violate("C15.exit_got_wrong_exception", sig, dict(describe(), call=call_id))
-                    if sc.suppress and isinstance(err, Exception):  # the managers suppress Exception, nothing wider
+                    suppressed = sc.suppress and isinstance(err, Exception)  # the managers suppress Exception, nothing wider
+                    for n, exit_ in enumerate(exits):
+                        want = None if (suppressed and n > 0) else id(err)
+                        if exit_[4] != want:
+                            out.violate("C15.exit_got_wrong_exception", sig, dict(describe(), call=call_id))
+                    if suppressed:
                         if res != ("ok", None):
                             out.violate("C15.suppressed_call_result_wrong", sig, dict(describe(), call=call_id))
                     elif res[0] != "raised" or res[1] is not err:
                         out.violate("C15.exception_not_routed_to_caller", sig, dict(describe(), call=call_id))
                 else:
-                    if exit_[3] is not None:
+                    if any(exit_[3] is not None for exit_ in exits):
                         out.violate("C15.exit_got_wrong_exception", sig, dict(describe(), call=call_id))
                     if res != ("ok", ("result", call_id)):
                         out.violate("C15.result_not_routed_to_caller", sig, dict(describe(), call=call_id))
@@ -353,12 +406,16 @@ def execute(st, ctx):
         out.faults["enter_raises"] = 1
     if sc.as_method:
         out.probes["decorated_method"] = 1
+    if sc.layout:
+        out.probes[("stacked_managers", "one_function_two_managers")[sc.layout - 1]] = 1
+    if sc.direct is not None and "inside" in direct_log:
+        out.probes["manager_entered_directly"] = 1
     if sc.extra:
         out.probes["clashing_keyword_names"] = 1
     if sc.falsy_exc and any(f for p in sc.calls for f in p):
         out.probes["falsy_exception"] = 1
     out.nontrivial = overlap or any(len(p) >= 2 for p in sc.calls)
-    out.shape = (sc.backend, sc.kind, sc.suppress, sc.ambient, sc.enter_fails, sc.as_method, tuple(sorted(sc.extra)), sc.falsy_exc, sc.exc_kind,
+    out.shape = (sc.backend, sc.layout, sc.direct, sc.kind, sc.suppress, sc.ambient, sc.enter_fails, sc.as_method, tuple(sorted(sc.extra)), sc.falsy_exc, sc.exc_kind,
                  tuple(tuple(w) for w in sc.which), tuple(sc.susp), tuple(tuple(p) for p in sc.calls), sc.cancel, hash(tuple(sim.trace)))
     if ctx.want_sample:
         out.sample = describe()
